@@ -116,9 +116,9 @@ func descr(v ssa.Value, d int) string {
 // ---- boolean function of a loop-free closure ---------------------------------------------
 
 type boolFn struct {
-	atoms  []string                 // distinct atom descriptors, sorted
-	table  map[string]bool          // assignment (bits in atoms order) -> result on the success return
-	unsupp string                   // why the closure cannot be evaluated
+	atoms  []string        // distinct atom descriptors, sorted
+	table  map[string]bool // assignment (bits in atoms order) -> result on the success return
+	unsupp string          // why the closure cannot be evaluated
 }
 
 // evalClosure computes, for every assignment of its boolean atoms, what the closure returns
@@ -874,15 +874,15 @@ func c15(c *Ctx) {
 		"SearchKeyOr": {[]string{"child:Key1", "child:Key2"}, func(a map[string]bool) bool {
 			return a["child:Key1"] || a["child:Key2"]
 		}},
-		"SearchKeyBCC":     one(`hdr:"Bcc"`, true),
-		"SearchKeyCC":      one(`hdr:"Cc"`, true),
-		"SearchKeyFrom":    one(`hdr:"From"`, true),
-		"SearchKeyTo":      one(`hdr:"To"`, true),
-		"SearchKeySubject": one(`hdr:"Subject"`, true),
-		"SearchKeyHeader":  one(`hdr:key.Field`, true),
-		"SearchKeyLarger":  one("cmp:(s.dbMessage.size > key.Value)", true),
-		"SearchKeySmaller": one("cmp:(s.dbMessage.size < key.Value)", true),
-		"SearchKeyBefore":  one("Before:db,key", true),
+		"SearchKeyBCC":        one(`hdr:"Bcc"`, true),
+		"SearchKeyCC":         one(`hdr:"Cc"`, true),
+		"SearchKeyFrom":       one(`hdr:"From"`, true),
+		"SearchKeyTo":         one(`hdr:"To"`, true),
+		"SearchKeySubject":    one(`hdr:"Subject"`, true),
+		"SearchKeyHeader":     one(`hdr:key.Field`, true),
+		"SearchKeyLarger":     one("cmp:(s.dbMessage.size > key.Value)", true),
+		"SearchKeySmaller":    one("cmp:(s.dbMessage.size < key.Value)", true),
+		"SearchKeyBefore":     one("Before:db,key", true),
 		"SearchKeySentBefore": one("Before:hdrdate,key", true),
 		"SearchKeySince": {[]string{"After:db,key", "Equal:db,key"}, func(a map[string]bool) bool {
 			return a["After:db,key"] || a["Equal:db,key"]
